@@ -397,7 +397,9 @@ class Runner:
             # renamed or removed again are not output files of the run
             W = sorted(C)
             if set(W) - written:
-                return "discard"  # a file we cannot attribute to the run
+                # written through an API the layer does not interpose: the trace
+                # monitor is blind for it, the state comparison after the run is not
+                w.probe("output_files_not_seen_by_trace_monitor", len(set(W) - written))
             self.W = W
             if only is not None:
                 S, kinds, mode = only
